@@ -293,6 +293,8 @@ class Runtime:
         self.depths = {}
         self.in_loop = False
         self.cbmap = {c.id: c for c in scn.cbs}
+        self.cross_hook = None    # worlds: called after a callback's nested sends (cross-machine nesting)
+        self.owner_ids = None     # ids of the objects that may provide this instance's callbacks (C17)
 
     def act(self, cb, tid):
         for (c, lo, hi, ret, rz, sends) in self.scn.acts:
@@ -393,15 +395,22 @@ def make_fn(rt: Runtime, c: Cb, with_self: bool):
     else:
         names = [p.split("=")[0] for p in params]
         collect = "dict(" + ", ".join(f"{n}={n}" for n in names) + ")"
+    me = ", self" if with_self else ""
     if c.coro:
         src = (
             f"async def {c.name}({', '.join(head)}):\n"
-            f"    return await _abody({collect})\n"
+            f"    return await _abody({collect}{me})\n"
         )
     else:
-        src = f"def {c.name}({', '.join(head)}):\n    return _body({collect})\n"
+        src = f"def {c.name}({', '.join(head)}):\n    return _body({collect}{me})\n"
 
-    def _body(kw):
+    def _owner(me):
+        ids = getattr(rt, "owner_ids", None)
+        if me is not None and ids is not None and id(me) not in ids:
+            rt.lines.append(f"X callback {c.id} ran on an object that does not belong to this instance")
+
+    def _body(kw, me=None):
+        _owner(me)
         got = extract(c, (), kw)
         tid, ph = rt.begin(c, got)
         ret, rz, sends = rt.act(c.id, tid)
@@ -411,12 +420,16 @@ def make_fn(rt: Runtime, c: Cb, with_self: bool):
                 r.close()
                 r = None
             rt.lines.append(f"S {tid} {ph} {c.id} {rt.fmt_res(r)}")
+        hook = getattr(rt, "cross_hook", None)
+        if hook is not None:
+            hook(c.id, tid)
         if rz is not None:
             raise UserExc(rz)
         rt.lines.append(f"E {tid} {ph} {c.id} {rp(POOL[ret])}")
         return POOL[ret]
 
-    async def _abody(kw):
+    async def _abody(kw, me=None):
+        _owner(me)
         got = extract(c, (), kw)
         tid, ph = rt.begin(c, got)
         ret, rz, sends = rt.act(c.id, tid)
@@ -445,7 +458,7 @@ def nested_send(rt: Runtime, e):
     return rt.sm.send(EVENTS[e] if e < len(EVENTS) else f"unk{e}", _tid=tid)
 
 
-def build(scn: Scn, rt: Runtime):
+def build(scn: Scn, rt: Runtime, cls_name=None, picklable=False):
     """Build the StateMachine subclass, model class and listener objects for the scenario."""
     from statemachine import State, StateMachine
 
@@ -507,8 +520,8 @@ def build(scn: Scn, rt: Runtime):
     ns["__init__"] = __init__
     with warnings.catch_warnings():
         warnings.simplefilter("ignore")
-        cls = type(StateMachine)("M_" + scn.name.replace("-", "_").replace(":", "_"), (StateMachine,), ns,
-                                 strict_states=scn.strict)
+        cls = type(StateMachine)(cls_name or "M_" + scn.name.replace("-", "_").replace(":", "_"),
+                                 (StateMachine,), ns, strict_states=scn.strict)
     # the model field is a logging property: every write by the engine is observed ("T <value>")
     def _get(self):
         return self.__dict__.get("_st")
@@ -518,28 +531,67 @@ def build(scn: Scn, rt: Runtime):
         rt.lines.append(f"T {rp(v)}")
 
     model_ns[scn.state_field] = property(_get, _set)
-    model_cls = type("Mdl", (), model_ns)
+    suffix = "_" + cls.__name__ if picklable else ""
+    model_cls = type("Mdl" + suffix, (), model_ns)
     listeners = {}
+    lclasses = []
     for p in sorted({c.provider for c in scn.cbs if c.provider.startswith("L")} | set(scn.listeners_ctor)):
-        listeners[p] = type("Lst_" + p, (), listener_ns.get(p, {}))()
+        lc = type("Lst_" + p + suffix, (), listener_ns.get(p, {}))
+        lclasses.append(lc)
+        listeners[p] = lc()
+    if picklable:    # pickle stores classes by module and name
+        g = sys.modules[cls.__module__].__dict__
+        for k in [cls, model_cls] + lclasses:
+            k.__module__ = cls.__module__
+            g[k.__name__] = k
     return cls, model_cls, listeners
 
 
-def run_impl(scn: Scn):
-    """Drive the real library; returns (observation lines, runtime)."""
-    rt = Runtime(scn)
-    try:
-        cls, model_cls, listeners = build(scn, rt)
-    except Exception as e:  # class-definition error: the scenario is not a valid machine
-        rt.lines.append(f"DEFERR {type(e).__name__}")
-        return rt.lines, rt
-    rt.cls, rt.model_cls = cls, model_cls
-    rt.model = model_cls()
-    if scn.cur0 is not None:
-        rt.model.__dict__["_st"] = POOL[scn.cur0]
-    rt.listeners = listeners
+class RtSwitch:
+    """Stands in for a `Runtime` inside callbacks of a class shared by several instances: every
+    attribute access is forwarded to the runtime of the instance whose operation is in progress."""
 
-    def op_construct():
+    def __init__(self):
+        object.__setattr__(self, "cur", None)
+
+    def __getattr__(self, k):
+        return getattr(object.__getattribute__(self, "cur"), k)
+
+    def __setattr__(self, k, v):
+        if k == "cur":
+            object.__setattr__(self, k, v)
+        else:
+            setattr(object.__getattribute__(self, "cur"), k, v)
+
+
+class Session:
+    """One machine instance driven operation by operation (the body of `run_impl`, re-entrant so
+    that several instances can be interleaved in one process)."""
+
+    def __init__(self, scn: Scn, rt: Runtime = None, built=None, cls_name=None):
+        self.scn = scn
+        self.rt = rt or Runtime(scn)
+        self.dead = False
+        self.cur_tid = "-"
+        self.ok = True
+        rt = self.rt
+        if built is None:
+            try:
+                built = build(scn, rt, cls_name=cls_name)
+            except Exception as e:  # class-definition error: the scenario is not a valid machine
+                rt.lines.append(f"DEFERR {type(e).__name__}")
+                self.ok = False
+                return
+        cls, model_cls, listeners = built
+        rt.cls, rt.model_cls = cls, model_cls
+        rt.model = model_cls()
+        if scn.cur0 is not None:
+            rt.model.__dict__["_st"] = POOL[scn.cur0]
+        rt.listeners = listeners
+        self.cls, self.listeners = cls, listeners
+
+    def op_construct(self):
+        rt, scn = self.rt, self.scn
         if getattr(rt.model, scn.state_field, None) is None:
             rt.initial_tid = rt.next_tid
             rt.next_tid += 1
@@ -548,22 +600,23 @@ def run_impl(scn: Scn):
             kw["start_value"] = POOL[scn.start]
         if scn.state_field != "state":
             kw["state_field"] = scn.state_field
-        cls(rt.model, rtc=scn.rtc, allow_event_without_transition=scn.allow,
-            listeners=[listeners[p] for p in scn.listeners_ctor], **kw)
+        self.cls(rt.model, rtc=scn.rtc, allow_event_without_transition=scn.allow,
+                 listeners=[self.listeners[p] for p in scn.listeners_ctor], **kw)
         rt.bound = type("Bound", (), {})()
         rt.sm.bind_events_to(rt.bound)
         return None
 
-    def ev_name(e):
+    def ev_name(self, e):
         if e < len(EVENTS):
             return EVENTS[e]
-        return scn.extra_events.get(e, f"unk{e}")
+        return self.scn.extra_events.get(e, f"unk{e}")
 
-    def op_send(e, style="send"):
+    def op_send(self, e, style="send"):
+        rt = self.rt
         tid = rt.next_tid
         rt.next_tid += 1
-        cur_tid[0] = str(tid)
-        name = ev_name(e)
+        self.cur_tid = str(tid)
+        name = self.ev_name(e)
         sm = rt.sm
         declared = name in type(sm)._events
         if style == "method" and declared:
@@ -581,21 +634,26 @@ def run_impl(scn: Scn):
             return getattr(rt.bound, name)(_tid=tid)
         return sm.send(name, _tid=tid)
 
-    dead = [False]
-    cur_tid = ["-"]
-
-    def do_op(i, op):
+    def do_op(self, i, op):
         """returns ('R', value-or-coroutine) or ('L', line)"""
-        cur_tid[0] = "-"
+        rt = self.rt
+        self.cur_tid = "-"
         rt.cur_op = i
         if op[0] in ("construct", "reconstruct"):
-            return "R", op_construct()
+            return "R", self.op_construct()
         if op[0] == "send":
-            return "R", op_send(op[1], op[2] if len(op) > 2 else "send")
+            return "R", self.op_send(op[1], op[2] if len(op) > 2 else "send")
+        if op[0] == "noop":
+            # stands for "a clone was taken here" in a reference run without cloning: a machine that is
+            # not activated yet gets a fresh activation trigger (numbered like the model numbers it)
+            if getattr(rt.model, self.scn.state_field, None) is None:
+                rt.initial_tid = rt.next_tid
+                rt.next_tid += 1
+            return "R", None
         if op[0] == "activate":
             return "R", rt.sm.activate_initial_state()
         if op[0] == "add_listener":
-            rt.sm.add_listener(listeners[op[1]])
+            rt.sm.add_listener(self.listeners[op[1]])
             return "R", None
         if op[0] == "allowed":
             try:
@@ -608,41 +666,51 @@ def run_impl(scn: Scn):
             return "L", f"V {i} " + ",".join(str(x) for x in ids)
         raise ValueError(op)
 
-    async def step(i, op, in_loop):
-        if dead[0]:
+    async def step(self, i, op):
+        rt = self.rt
+        if self.dead:
             rt.lines.append(f"R {i} skipped")
             return
         try:
-            k, r = do_op(i, op)
+            k, r = self.do_op(i, op)
             if k == "L":
                 rt.lines.append(r)
                 return
             if asyncio.iscoroutine(r):
                 r = await r
-            rt.lines.append(f"R {i} ok {rt.fmt_res(r)} cur={rt.seen()} tid={cur_tid[0]}")
+            rt.lines.append(f"R {i} ok {rt.fmt_res(r)} cur={rt.seen()} tid={self.cur_tid}")
         except Exception as e:
-            rt.lines.append(f"R {i} err {rt.exc_s(e)} cur={rt.seen()} tid={cur_tid[0]}")
+            rt.lines.append(f"R {i} err {rt.exc_s(e)} cur={rt.seen()} tid={self.cur_tid}")
             if op[0] in ("construct", "reconstruct"):
-                dead[0] = True
+                self.dead = True
 
-    def step_sync(i, op):
-        if dead[0]:
+    def step_sync(self, i, op):
+        rt = self.rt
+        if self.dead:
             rt.lines.append(f"R {i} skipped")
             return
         try:
-            k, r = do_op(i, op)
+            k, r = self.do_op(i, op)
             if k == "L":
                 rt.lines.append(r)
                 return
-            rt.lines.append(f"R {i} ok {rt.fmt_res(r)} cur={rt.seen()} tid={cur_tid[0]}")
+            rt.lines.append(f"R {i} ok {rt.fmt_res(r)} cur={rt.seen()} tid={self.cur_tid}")
         except Exception as e:
-            rt.lines.append(f"R {i} err {rt.exc_s(e)} cur={rt.seen()} tid={cur_tid[0]}")
+            rt.lines.append(f"R {i} err {rt.exc_s(e)} cur={rt.seen()} tid={self.cur_tid}")
             if op[0] in ("construct", "reconstruct"):
-                dead[0] = True
+                self.dead = True
+
+
+def run_impl(scn: Scn):
+    """Drive the real library; returns (observation lines, runtime)."""
+    ses = Session(scn)
+    rt = ses.rt
+    if not ses.ok:
+        return rt.lines, rt
 
     async def run_all_async():
         for i, op in enumerate(scn.ops):
-            await step(i, op, True)
+            await ses.step(i, op)
 
     with warnings.catch_warnings(record=True) as w:
         warnings.simplefilter("always")
@@ -652,7 +720,7 @@ def run_impl(scn: Scn):
             # sync code, no running loop: coroutine callbacks run on the library's per-thread loop,
             # inside which nested sends return coroutines that the coroutine callback awaits
             for i, op in enumerate(scn.ops):
-                step_sync(i, op)
+                ses.step_sync(i, op)
         rt.warnings = [str(x.message) for x in w if "never awaited" in str(x.message)]
     return rt.lines, rt
 
